@@ -1,4 +1,99 @@
+(* Proofs about the snake_cyclers model (C26). *)
 From BV Require Import Base.Prelude Pure.Snake.
+From Coq Require Import Permutation.
+
+Local Notation pos := (fun L : nat => 1 <= L).
+
+(* ------------------------------------------------------------------ arithmetic *)
+
+Lemma div_mod_mul a b c : b <> 0 -> c <> 0 -> (a mod (b * c)) / b = (a / b) mod c.
+Proof.
+  intros Hb Hc. rewrite Nat.mod_mul_r by assumption.
+  rewrite (Nat.mul_comm b), Nat.div_add by assumption.
+  rewrite Nat.div_small by (apply Nat.mod_upper_bound; assumption). reflexivity.
+Qed.
+
+Lemma mod_mul_mod a b c : b <> 0 -> c <> 0 -> (a mod (b * c)) mod b = a mod b.
+Proof.
+  intros Hb Hc. rewrite Nat.mod_mul_r by assumption.
+  rewrite (Nat.mul_comm b), Nat.mod_add by assumption. apply Nat.mod_mod; assumption.
+Qed.
+
+Lemma mod2_odd s : s mod 2 = if Nat.odd s then 1 else 0.
+Proof. rewrite <- Nat.bit0_mod, Nat.bit0_odd. destruct (Nat.odd s); reflexivity. Qed.
+
+Lemma sub_block_div t R : R <> 0 -> R <= t -> t / R = S ((t - R) / R).
+Proof.
+  intros HR Hle. replace t with ((t - R) + 1 * R) at 1 by lia.
+  rewrite Nat.div_add by assumption. lia.
+Qed.
+
+Lemma sub_block_mod t R : R <> 0 -> R <= t -> t mod R = (t - R) mod R.
+Proof.
+  intros HR Hle. replace t with ((t - R) + 1 * R) at 1 by lia.
+  apply Nat.mod_add; assumption.
+Qed.
+
+(* T and T+1 in the same block of size R *)
+Lemma same_block T R : R <> 0 -> (T + 1) mod R <> 0 -> (T + 1) / R = T / R.
+Proof.
+  intros HR Hne. symmetry.
+  pose proof (Nat.div_mod T R HR) as E. pose proof (Nat.mod_upper_bound T R HR) as Hlt.
+  destruct (Nat.eq_dec (T mod R + 1) R) as [Heq|Hneq].
+  - exfalso. apply Hne. symmetry. apply (Nat.mod_unique (T + 1) R (T / R + 1) 0); [lia|nia].
+  - apply (Nat.div_unique (T + 1) R (T / R) (T mod R + 1)); [lia|lia].
+Qed.
+
+(* T+1 starts a new block of size R*L: every quantity of the axis (R, L) rolls over *)
+Lemma rollover T R L : R <> 0 -> L <> 0 -> (T + 1) mod (R * L) = 0 ->
+  (T + 1) / (R * L) = S (T / (R * L)) /\ (T / R) mod L = L - 1 /\ ((T + 1) / R) mod L = 0.
+Proof.
+  intros HR HL H0.
+  assert (HM : R * L <> 0) by nia.
+  apply Nat.mod_divides in H0; [|assumption]. destruct H0 as [q Hq].
+  assert (Hq1 : 1 <= q) by (destruct q; [lia|lia]).
+  assert (E1 : (T + 1) / (R * L) = q).
+  { symmetry. apply (Nat.div_unique _ _ q 0); [lia|lia]. }
+  assert (E2 : T / (R * L) = q - 1).
+  { symmetry. apply (Nat.div_unique _ _ (q - 1) (R * L - 1)); [lia|nia]. }
+  assert (E3 : T / R = L * (q - 1) + (L - 1)).
+  { symmetry. apply (Nat.div_unique _ _ _ (R - 1)); [lia|nia]. }
+  assert (E4 : (T + 1) / R = L * q).
+  { symmetry. apply (Nat.div_unique _ _ _ 0); [lia|nia]. }
+  split; [lia|]. split.
+  - rewrite E3. symmetry. apply (Nat.mod_unique _ _ (q - 1) (L - 1)); [lia|lia].
+  - rewrite E4. symmetry. apply (Nat.mod_unique _ _ q 0); [lia|lia].
+Qed.
+
+(* T+1 starts a new block of size R but not of size R*L: the digit of the axis advances by one *)
+Lemma advance T R L : R <> 0 -> L <> 0 -> (T + 1) mod R = 0 -> (T + 1) mod (R * L) <> 0 ->
+  (T + 1) / (R * L) = T / (R * L) /\ ((T + 1) / R) mod L = (T / R) mod L + 1.
+Proof.
+  intros HR HL H0 Hne.
+  apply Nat.mod_divides in H0; [|assumption]. destruct H0 as [q Hq].
+  assert (Hq1 : 1 <= q) by (destruct q; [lia|lia]).
+  assert (E1 : (T + 1) / R = q).
+  { symmetry. apply (Nat.div_unique _ _ q 0); [lia|lia]. }
+  assert (E2 : T / R = q - 1).
+  { symmetry. apply (Nat.div_unique _ _ (q - 1) (R - 1)); [lia|nia]. }
+  assert (Hqm : q mod L <> 0).
+  { intros Hz. apply Hne. rewrite Hq. rewrite Nat.mul_mod_distr_l by assumption. rewrite Hz. lia. }
+  pose proof (Nat.div_mod q L HL) as Eq. pose proof (Nat.mod_upper_bound q L HL) as Hlt.
+  assert (E3 : (q - 1) / L = q / L).
+  { symmetry. apply (Nat.div_unique _ _ _ (q mod L - 1)); [lia|lia]. }
+  assert (E4 : (q - 1) mod L = q mod L - 1).
+  { symmetry. apply (Nat.mod_unique _ _ (q / L)); [lia|lia]. }
+  rewrite <- !Nat.div_div by assumption. rewrite E1, E2, E3, E4. split; lia.
+Qed.
+
+Lemma mod_factor a h m : h * m <> 0 -> a mod (h * m) = 0 -> a mod m = 0.
+Proof.
+  intros Hhm H0. assert (m <> 0) by nia.
+  apply Nat.mod_divides in H0; [|assumption]. destruct H0 as [c Hc].
+  apply Nat.mod_divides; [assumption|]. exists (h * c). nia.
+Qed.
+
+(* ------------------------------------------------------------------ lists *)
 
 Lemma length_repeat_each {A} r (l : list A) : length (repeat_each r l) = length l * r.
 Proof.
@@ -11,3 +106,583 @@ Proof.
   unfold tile. induction n as [|n IH]; cbn [repeat concat length]; [reflexivity|].
   rewrite app_length, IH. lia.
 Qed.
+
+Lemma nth_firstn_lt {A} (l : list A) n t d : t < n -> nth t (firstn n l) d = nth t l d.
+Proof.
+  revert n t. induction l as [|x l IH]; intros n t Hlt.
+  - rewrite firstn_nil. reflexivity.
+  - destruct n as [|n]; [lia|]. destruct t as [|t]; cbn; [reflexivity|]. apply IH. lia.
+Qed.
+
+Lemma nth_map_seq {A} (f : nat -> A) n t d : t < n -> nth t (map f (seq 0 n)) d = f t.
+Proof.
+  intros Hlt. rewrite (nth_indep _ d (f 0)) by (rewrite map_length, seq_length; assumption).
+  rewrite map_nth, seq_nth by assumption. reflexivity.
+Qed.
+
+Lemma nth_flat_map_uniform {A B} (f : A -> list B) R (l : list A) dx d t :
+  (forall x, length (f x) = R) -> t < length l * R ->
+  nth t (flat_map f l) d = nth (t mod R) (f (nth (t / R) l dx)) d.
+Proof.
+  intros Hlen. revert t. induction l as [|x l IH]; intros t Hlt; [cbn in Hlt; lia|].
+  assert (HR : R <> 0) by (intros ->; lia).
+  cbn [flat_map]. destruct (lt_dec t R) as [Hs|Hb].
+  - rewrite app_nth1 by (rewrite Hlen; assumption).
+    rewrite Nat.div_small, Nat.mod_small by assumption. reflexivity.
+  - rewrite app_nth2 by (rewrite Hlen; lia). rewrite Hlen.
+    rewrite IH by (cbn [length] in Hlt; lia).
+    rewrite (sub_block_div t R), (sub_block_mod t R) by lia. reflexivity.
+Qed.
+
+Lemma tile_flat_map {A} n (l : list A) : tile n l = flat_map (fun _ : unit => l) (repeat tt n).
+Proof. unfold tile. induction n as [|n IH]; cbn; [reflexivity|]. now rewrite IH. Qed.
+
+Lemma nth_tile {A} n (l : list A) d t : t < n * length l -> nth t (tile n l) d = nth (t mod length l) l d.
+Proof.
+  intros Hlt. rewrite tile_flat_map.
+  apply (nth_flat_map_uniform (fun _ : unit => l) (length l) (repeat tt n) tt d t); [reflexivity|].
+  rewrite repeat_length. assumption.
+Qed.
+
+Lemma nth_repeat_each {A} r (l : list A) d t : t < length l * r -> nth t (repeat_each r l) d = nth (t / r) l d.
+Proof.
+  intros Hlt. unfold repeat_each.
+  assert (Hr : r <> 0) by (intros ->; lia).
+  rewrite (nth_flat_map_uniform (fun x => repeat x r) r l d d t) by (auto using repeat_length).
+  rewrite (nth_indep _ d (nth (t / r) l d)).
+  - apply nth_repeat.
+  - rewrite repeat_length. apply Nat.mod_upper_bound. assumption.
+Qed.
+
+Lemma combine_seq_nth {A} (l : list A) d s :
+  combine (seq s (length l)) l = map (fun k => (k, nth (k - s) l d)) (seq s (length l)).
+Proof.
+  revert s. induction l as [|a l IH]; intros s; [reflexivity|].
+  cbn [length seq combine map]. rewrite Nat.sub_diag. cbn [nth]. f_equal.
+  rewrite IH. apply map_ext_in. intros k Hk. apply in_seq in Hk.
+  replace (k - s) with (S (k - S s)) by lia. reflexivity.
+Qed.
+
+Lemma NoDup_map_inj_in {A B} (f : A -> B) (l : list A) :
+  (forall x y, In x l -> In y l -> f x = f y -> x = y) -> NoDup l -> NoDup (map f l).
+Proof.
+  intros Hinj Hnd. induction Hnd as [|x l Hnin Hnd IH]; cbn; constructor.
+  - intros Hin. apply in_map_iff in Hin. destruct Hin as [y [Hy Hiny]].
+    assert (y = x) by (apply Hinj; [right; assumption|left; reflexivity|assumption]). subst. contradiction.
+  - apply IH. intros a b Ha Hb. apply Hinj; right; assumption.
+Qed.
+
+Lemma existsb_false_nth (l : list bool) k : existsb (fun b => b) l = false -> nth k l false = false.
+Proof.
+  revert k. induction l as [|b l IH]; intros k H; destruct k; cbn in *; try reflexivity.
+  - destruct b; [discriminate|reflexivity].
+  - apply IH. destruct b; [discriminate|assumption].
+Qed.
+
+(* ------------------------------------------------------------------ products of lengths *)
+
+Lemma prodl_cons a l : prodl (a :: l) = a * prodl l.
+Proof. reflexivity. Qed.
+
+Lemma prodl_pos l : Forall pos l -> 1 <= prodl l.
+Proof. induction 1 as [|a l Ha _ IH]; [cbn; lia|]. rewrite prodl_cons. nia. Qed.
+
+Lemma pos_skipn n (l : list nat) : Forall pos l -> Forall pos (skipn n l).
+Proof.
+  revert l. induction n as [|n IH]; intros l H; [assumption|].
+  destruct l as [|a l]; [constructor|]. cbn. apply IH. apply (Forall_inv_tail H).
+Qed.
+
+Lemma pos_firstn n (l : list nat) : Forall pos l -> Forall pos (firstn n l).
+Proof.
+  revert l. induction n as [|n IH]; intros l H; [constructor|].
+  destruct l as [|a l]; [constructor|]. cbn. constructor; [apply (Forall_inv H)|]. apply IH. apply (Forall_inv_tail H).
+Qed.
+
+Lemma pos_nth k (l : list nat) : Forall pos l -> k < length l -> 1 <= nth k l 0.
+Proof. intros H Hk. apply (proj1 (Forall_nth pos l) H k 0 Hk). Qed.
+
+Lemma prodl_split lens k : k < length lens ->
+  prodl lens = prodl (firstn k lens) * (nth k lens 0 * prodl (skipn (S k) lens)).
+Proof.
+  revert k. induction lens as [|a l IH]; intros k Hk; [cbn in Hk; lia|].
+  destruct k as [|k].
+  - cbn [firstn nth skipn]. rewrite prodl_cons. cbn [prodl fold_right]. lia.
+  - cbn [firstn nth skipn length] in *. rewrite !prodl_cons. rewrite (IH k) at 1 by lia. lia.
+Qed.
+
+Lemma prodl_skipn_factor lens j k : j < k < length lens ->
+  exists c, prodl (skipn (S j) lens) = c * (prodl (skipn (S k) lens) * nth k lens 0).
+Proof.
+  revert j k. induction lens as [|a l IH]; intros j k Hjk; [cbn in Hjk; lia|].
+  destruct k as [|k]; [lia|]. cbn [length] in Hjk. destruct j as [|j].
+  - change (skipn 1 (a :: l)) with l. change (skipn (S (S k)) (a :: l)) with (skipn (S k) l).
+    change (nth (S k) (a :: l) 0) with (nth k l 0). exists (prodl (firstn k l)). rewrite (prodl_split l k) at 1 by lia. lia.
+  - cbn [nth]. change (skipn (S (S j)) (a :: l)) with (skipn (S j) l).
+    change (skipn (S (S k)) (a :: l)) with (skipn (S k) l). apply IH. lia.
+Qed.
+
+Section Axis.
+  Variable lens : list nat.
+  Hypothesis Hpos : Forall pos lens.
+  Variable k : nat.
+  Hypothesis Hk : k < length lens.
+
+  Let L := nth k lens 0.
+  Let R := prodl (skipn (S k) lens).
+  Let H := prodl (firstn k lens).
+
+  Lemma axis_L : 1 <= L. Proof. apply pos_nth; assumption. Qed.
+  Lemma axis_R : 1 <= R. Proof. apply prodl_pos, pos_skipn; assumption. Qed.
+  Lemma axis_H : 1 <= H. Proof. apply prodl_pos, pos_firstn; assumption. Qed.
+  Lemma axis_total : prodl lens = H * (L * R). Proof. apply prodl_split; assumption. Qed.
+
+  Lemma digit_lt t : digit lens k t < nth k lens 0.
+  Proof. unfold digit. apply Nat.mod_upper_bound. pose proof axis_L. fold L. lia. Qed.
+
+  Lemma digit_mod t : digit lens k (t mod prodl lens) = digit lens k t.
+  Proof.
+    unfold digit. fold R L. rewrite axis_total.
+    pose proof axis_L. pose proof axis_R. pose proof axis_H.
+    replace (H * (L * R)) with (R * (L * H)) by lia.
+    rewrite div_mod_mul by nia. apply mod_mul_mod; lia.
+  Qed.
+
+  Lemma length_axis_col b : length (axis_col lens k b) = prodl lens.
+  Proof.
+    unfold axis_col. fold L R H. rewrite firstn_length, length_tile, length_repeat_each.
+    rewrite axis_total. pose proof axis_H.
+    destruct b.
+    - rewrite app_length, rev_length, seq_length.
+      replace (H * ((L + L) * R)) with (H * (L * R) + H * (L * R)) by lia. lia.
+    - rewrite seq_length. lia.
+  Qed.
+
+  Lemma nth_axis_col b t : t < prodl lens ->
+    nth t (axis_col lens k b) 0 =
+    if b && Nat.odd (slower lens k t) then nth k lens 0 - 1 - digit lens k t else digit lens k t.
+  Proof.
+    intros Ht. unfold axis_col, slower, digit. fold L R H.
+    pose proof axis_L as HL. pose proof axis_R as HR. pose proof axis_H as HH.
+    rewrite nth_firstn_lt by assumption.
+    rewrite axis_total in Ht.
+    destruct b; cbn [andb].
+    - set (v := seq 0 L ++ rev (seq 0 L)).
+      assert (Hv : length v = L * 2) by (unfold v; rewrite app_length, rev_length, seq_length; lia).
+      rewrite nth_tile by (rewrite length_repeat_each, Hv; nia).
+      rewrite length_repeat_each, Hv.
+      rewrite nth_repeat_each by (rewrite Hv; apply Nat.mod_upper_bound; nia).
+      rewrite (Nat.mul_comm (L * 2) R), div_mod_mul by lia.
+      rewrite Nat.mod_mul_r by lia. rewrite Nat.div_div by lia. rewrite mod2_odd.
+      pose proof (Nat.mod_upper_bound (t / R) L ltac:(lia)) as Hd.
+      destruct (Nat.odd (t / (R * L))); unfold v.
+      + rewrite app_nth2 by (rewrite seq_length; lia). rewrite seq_length.
+        rewrite rev_nth by (rewrite seq_length; lia). rewrite seq_length.
+        rewrite seq_nth by lia. lia.
+      + rewrite app_nth1 by (rewrite seq_length; lia). rewrite seq_nth by lia. lia.
+    - rewrite nth_tile by (rewrite length_repeat_each, seq_length; nia).
+      rewrite length_repeat_each, seq_length.
+      rewrite nth_repeat_each by (rewrite seq_length; apply Nat.mod_upper_bound; nia).
+      rewrite (Nat.mul_comm L R), div_mod_mul by lia.
+      rewrite seq_nth by (apply Nat.mod_upper_bound; lia). reflexivity.
+  Qed.
+
+  (* when T+1 starts a new period of the axis: its slower part advances, its digit wraps *)
+  Lemma axis_turn T : (T + 1) mod (prodl (skipn (S k) lens) * nth k lens 0) = 0 ->
+    slower lens k (T + 1) = S (slower lens k T) /\ digit lens k T = nth k lens 0 - 1 /\ digit lens k (T + 1) = 0.
+  Proof.
+    intros H0. unfold slower, digit. fold R L in H0 |- *.
+    pose proof axis_L. pose proof axis_R. apply rollover; [lia|lia|assumption].
+  Qed.
+
+  Lemma slower_changes T : slower lens k (T + 1) <> slower lens k T ->
+    (T + 1) mod (prodl (skipn (S k) lens) * nth k lens 0) = 0.
+  Proof.
+    intros Hne. destruct (Nat.eq_dec ((T + 1) mod (prodl (skipn (S k) lens) * nth k lens 0)) 0) as [E|E]; [assumption|].
+    exfalso. apply Hne. unfold slower. apply same_block; [|assumption].
+    pose proof axis_L. pose proof axis_R. fold R L. nia.
+  Qed.
+
+  Lemma idx_turn flags T : (T + 1) mod (prodl (skipn (S k) lens) * nth k lens 0) = 0 ->
+    Nat.odd (slower lens k (T + 1)) = negb (Nat.odd (slower lens k T)) /\
+    if nth k flags false then idx lens flags k (T + 1) = idx lens flags k T
+    else idx lens flags k T = nth k lens 0 - 1 /\ idx lens flags k (T + 1) = 0.
+  Proof.
+    intros H0. destruct (axis_turn T H0) as [Es [Ed Ed']].
+    split; [rewrite Es, Nat.odd_succ, Nat.negb_odd; reflexivity|].
+    unfold idx. rewrite Es, Ed, Ed', Nat.odd_succ, <- Nat.negb_odd.
+    destruct (nth k flags false); cbn [andb]; [|split; reflexivity].
+    destruct (Nat.odd (slower lens k T)); cbn [negb]; lia.
+  Qed.
+
+  Lemma idx_lt flags t : idx lens flags k t < nth k lens 0.
+  Proof.
+    unfold idx. pose proof (digit_lt t).
+    destruct (nth k flags false && Nat.odd (slower lens k t)); lia.
+  Qed.
+End Axis.
+
+(* a digit of a slower axis changes => the slower part of axis k changes *)
+Lemma slower_same_digit_same lens j k T T' : Forall pos lens -> j < k < length lens ->
+  slower lens k T = slower lens k T' -> digit lens j T = digit lens j T'.
+Proof.
+  intros Hpos Hjk Hs. unfold slower in Hs. unfold digit.
+  destruct (prodl_skipn_factor lens j k Hjk) as [c Hc].
+  pose proof (axis_L lens Hpos k ltac:(lia)) as HL. pose proof (axis_R lens Hpos k) as HR.
+  pose proof (axis_R lens Hpos j) as HRj.
+  set (M := prodl (skipn (S k) lens) * nth k lens 0) in *.
+  assert (HM : M <> 0) by (unfold M; nia).
+  assert (Hc0 : c <> 0) by (intros ->; lia).
+  rewrite Hc, (Nat.mul_comm c M). rewrite <- !(Nat.div_div _ M c) by assumption.
+  rewrite Hs. reflexivity.
+Qed.
+
+(* ------------------------------------------------------------------ plain product *)
+
+Lemma length_flat_map_uniform {A B} (f : A -> list B) R (l : list A) :
+  (forall x, length (f x) = R) -> length (flat_map f l) = length l * R.
+Proof.
+  intros Hlen. induction l as [|x l IH]; cbn [flat_map length]; [reflexivity|].
+  rewrite app_length, Hlen, IH. lia.
+Qed.
+
+Lemma length_product lens : length (product lens) = prodl lens.
+Proof.
+  induction lens as [|L rest IH]; [reflexivity|].
+  cbn [product]. rewrite prodl_cons.
+  rewrite (length_flat_map_uniform _ (prodl rest)), seq_length; [reflexivity|].
+  intros i. rewrite map_length. exact IH.
+Qed.
+
+Lemma idx_S L rest f frest k T : idx (L :: rest) (f :: frest) (S k) T = idx rest frest k T.
+Proof. reflexivity. Qed.
+
+Lemma digit_S L rest k T : digit (L :: rest) (S k) T = digit rest k T.
+Proof. reflexivity. Qed.
+
+Lemma slower_S L rest k T : slower (L :: rest) (S k) T = slower rest k T.
+Proof. reflexivity. Qed.
+
+Lemma point_cons L rest f frest T :
+  point (L :: rest) (f :: frest) T = idx (L :: rest) (f :: frest) 0 T :: point rest frest T.
+Proof.
+  unfold point. cbn [length seq map]. f_equal. rewrite <- seq_shift, map_map.
+  apply map_ext. intros k. apply idx_S.
+Qed.
+
+Lemma nth_product lens t : Forall pos lens -> t < prodl lens ->
+  nth t (product lens) [] = map (fun k => digit lens k t) (seq 0 (length lens)).
+Proof.
+  intros Hpos. revert t. induction Hpos as [|L rest HL Hrest IH]; intros t Ht.
+  - cbn in Ht. assert (t = 0) by lia. subst. reflexivity.
+  - rewrite prodl_cons in Ht. pose proof (prodl_pos rest Hrest) as HR.
+    set (R := prodl rest) in *.
+    cbn [product].
+    rewrite (nth_flat_map_uniform (fun i => map (cons i) (product rest)) R (seq 0 L) 0 [] t)
+      by first [ intros; rewrite map_length; apply length_product | rewrite seq_length; lia ].
+    assert (Hq : t / R < L) by (apply Nat.div_lt_upper_bound; lia).
+    rewrite seq_nth by assumption. cbn [plus].
+    assert (Hm : t mod R < R) by (apply Nat.mod_upper_bound; lia).
+    rewrite (nth_indep _ [] (cons (t / R) [])) by (rewrite map_length, length_product; assumption).
+    rewrite map_nth, IH by assumption.
+    cbn [length seq map]. f_equal.
+    + unfold digit. cbn [skipn nth]. fold R. rewrite Nat.mod_small by assumption. reflexivity.
+    + rewrite <- seq_shift, map_map. apply map_ext_in. intros k Hk. apply in_seq in Hk.
+      rewrite digit_S. apply digit_mod; [assumption|lia].
+Qed.
+
+Lemma product_closed lens : Forall pos lens ->
+  product lens = map (fun t => map (fun k => digit lens k t) (seq 0 (length lens))) (seq 0 (prodl lens)).
+Proof.
+  intros Hpos. apply (nth_ext _ _ [] []).
+  - rewrite length_product, map_length, seq_length. reflexivity.
+  - intros t Ht. rewrite length_product in Ht. rewrite nth_map_seq by assumption.
+    apply nth_product; assumption.
+Qed.
+
+(* ------------------------------------------------------------------ (i) closed form *)
+
+Lemma idx_first lens flags t : Forall pos lens -> lens <> [] -> t < prodl lens ->
+  idx lens flags 0 t = digit lens 0 t.
+Proof.
+  intros Hpos Hne Ht. destruct lens as [|L rest]; [contradiction|].
+  unfold idx, slower. cbn [skipn nth]. rewrite prodl_cons in Ht.
+  rewrite Nat.div_small by lia. cbn [Nat.odd]. rewrite andb_false_r. reflexivity.
+Qed.
+
+Lemma idx_unsnaked lens flags k t : nth k flags false = false -> idx lens flags k t = digit lens k t.
+Proof. intros H. unfold idx. rewrite H. reflexivity. Qed.
+
+Theorem snake_closed lens flags : valid_lens lens -> length flags = length lens ->
+  snake_cyclers lens flags = Some (map (point lens flags) (seq 0 (prodl lens))).
+Proof.
+  intros [Hne Hpos] Hlen. unfold snake_cyclers.
+  rewrite <- Hlen, Nat.eqb_refl. cbn [negb].
+  assert (Hn0 : (length flags =? 0) = false).
+  { apply Nat.eqb_neq. rewrite Hlen. destruct lens; [contradiction|cbn; lia]. }
+  rewrite Hn0.
+  destruct (existsb (fun b => b) (tl flags)) eqn:Hex; cbn [negb].
+  - (* snaking: zipped columns *)
+    rewrite Hlen. rewrite <- Hlen at 1. rewrite (combine_seq_nth flags false 0), map_map. rewrite Hlen.
+    unfold zip_cols.
+    assert (Hall : forallb (fun c => length c =? prodl lens)
+             (map (fun x => axis_col lens (fst (x, nth (x - 0) flags false)) (snd (x, nth (x - 0) flags false)))
+                  (seq 0 (length lens))) = true).
+    { apply forallb_forall. intros c Hc. apply in_map_iff in Hc. destruct Hc as [k [<- Hk]].
+      apply in_seq in Hk. cbn [fst snd]. apply Nat.eqb_eq. apply length_axis_col; [assumption|lia]. }
+    rewrite Hall. f_equal. apply map_ext_in. intros t Ht. apply in_seq in Ht.
+    rewrite map_map. unfold point. apply map_ext_in. intros k Hk. apply in_seq in Hk.
+    cbn [fst snd]. rewrite Nat.sub_0_r. rewrite nth_axis_col by (assumption || lia). reflexivity.
+  - (* no snaking after the first axis: plain product *)
+    f_equal. rewrite product_closed by assumption. apply map_ext_in. intros t Ht. apply in_seq in Ht.
+    unfold point. apply map_ext_in. intros k Hk. apply in_seq in Hk. symmetry.
+    destruct k as [|k].
+    + apply idx_first; (assumption || lia).
+    + apply idx_unsnaked. destruct flags as [|f frest]; [reflexivity|]. cbn [nth tl] in *.
+      apply existsb_false_nth. assumption.
+Qed.
+
+Lemma length_point lens flags t : length (point lens flags t) = length lens.
+Proof. unfold point. rewrite map_length, seq_length. reflexivity. Qed.
+
+Lemma nth_point lens flags t k d : k < length lens -> nth k (point lens flags t) d = idx lens flags k t.
+Proof. intros Hk. unfold point. apply (nth_map_seq (fun k => idx lens flags k t)). assumption. Qed.
+
+(* ------------------------------------------------------------------ (ii) bijection *)
+
+Lemma idx0_unfold L rest f frest T :
+  idx (L :: rest) (f :: frest) 0 T =
+  if f && Nat.odd (T / (prodl rest * L)) then L - 1 - (T / prodl rest) mod L else (T / prodl rest) mod L.
+Proof. reflexivity. Qed.
+
+Lemma point_inj_block lens : Forall pos lens -> forall flags, length flags = length lens ->
+  forall T1 T2, T1 / prodl lens = T2 / prodl lens -> point lens flags T1 = point lens flags T2 -> T1 = T2.
+Proof.
+  induction 1 as [|L rest HL Hrest IH]; intros flags Hlen T1 T2 Hblk Hpt.
+  - change (prodl []) with 1 in Hblk. rewrite !Nat.div_1_r in Hblk. assumption.
+  - destruct flags as [|f frest]; [discriminate|]. cbn [length] in Hlen.
+    rewrite !point_cons in Hpt. injection Hpt as H0 Hr.
+    rewrite !idx0_unfold in H0. rewrite prodl_cons in Hblk.
+    pose proof (prodl_pos rest Hrest) as HR. set (R := prodl rest) in *.
+    rewrite (Nat.mul_comm L R) in Hblk. rewrite Hblk in H0.
+    pose proof (Nat.mod_upper_bound (T1 / R) L ltac:(lia)) as Hd1.
+    pose proof (Nat.mod_upper_bound (T2 / R) L ltac:(lia)) as Hd2.
+    assert (Hd : (T1 / R) mod L = (T2 / R) mod L) by (destruct (f && Nat.odd (T2 / (R * L))); lia).
+    rewrite <- !Nat.div_div in Hblk by lia.
+    assert (Hq : T1 / R = T2 / R).
+    { rewrite (Nat.div_mod (T1 / R) L), (Nat.div_mod (T2 / R) L) by lia. rewrite Hblk, Hd. reflexivity. }
+    apply (IH frest); [lia|assumption|assumption].
+Qed.
+
+Lemma point_in_product lens : Forall pos lens -> forall flags, length flags = length lens ->
+  forall T, In (point lens flags T) (product lens).
+Proof.
+  induction 1 as [|L rest HL Hrest IH]; intros flags Hlen T.
+  - left. reflexivity.
+  - destruct flags as [|f frest]; [discriminate|]. cbn [length] in Hlen.
+    rewrite point_cons. cbn [product]. apply in_flat_map.
+    exists (idx (L :: rest) (f :: frest) 0 T). split.
+    + apply in_seq. split; [lia|]. cbn [plus].
+      apply (idx_lt (L :: rest) ltac:(constructor; assumption) 0 ltac:(cbn; lia)).
+    + apply in_map. apply IH. lia.
+Qed.
+
+Theorem snake_points_nodup lens flags : valid_lens lens -> length flags = length lens ->
+  NoDup (map (point lens flags) (seq 0 (prodl lens))).
+Proof.
+  intros [Hne Hpos] Hlen. apply NoDup_map_inj_in; [|apply seq_NoDup].
+  intros x y Hx Hy E. apply in_seq in Hx. apply in_seq in Hy.
+  apply (point_inj_block lens Hpos flags Hlen); [|assumption].
+  rewrite !Nat.div_small by lia. reflexivity.
+Qed.
+
+Theorem snake_permutation lens flags : valid_lens lens -> length flags = length lens ->
+  Permutation (map (point lens flags) (seq 0 (prodl lens))) (product lens).
+Proof.
+  intros Hv Hlen. apply NoDup_Permutation_bis.
+  - apply snake_points_nodup; assumption.
+  - rewrite length_product, map_length, seq_length. lia.
+  - intros p Hp. apply in_map_iff in Hp. destruct Hp as [t [<- _]].
+    apply point_in_product; [apply Hv|assumption].
+Qed.
+
+(* ------------------------------------------------------------------ (iv) continuity *)
+
+Lemma step_shape lens : Forall pos lens -> lens <> [] -> forall flags, length flags = length lens ->
+  forall T, (T + 1) mod prodl lens <> 0 ->
+  exists j, j < length lens /\
+    (forall i, i < j -> idx lens flags i (T + 1) = idx lens flags i T) /\
+    adj (idx lens flags j T) (idx lens flags j (T + 1)) /\
+    (forall i, j < i < length lens ->
+       if nth i flags false then idx lens flags i (T + 1) = idx lens flags i T
+       else idx lens flags i T = nth i lens 0 - 1 /\ idx lens flags i (T + 1) = 0).
+Proof.
+  induction 1 as [|L rest HL Hrest IH]; intros Hne flags Hlen T Hmod; [contradiction|].
+  destruct flags as [|f frest]; [discriminate|]. cbn [length] in Hlen.
+  pose proof (prodl_pos rest Hrest) as HR. rewrite prodl_cons in Hmod. set (R := prodl rest) in *.
+  rewrite (Nat.mul_comm L R) in Hmod.
+  destruct (Nat.eq_dec ((T + 1) mod R) 0) as [E0|E0].
+  - (* axis 0 advances; everything faster turns around / wraps *)
+    exists 0. split; [cbn; lia|]. split; [intros i Hi; lia|]. split.
+    + rewrite !idx0_unfold. fold R.
+      destruct (advance T R L ltac:(lia) ltac:(lia) E0 Hmod) as [Es Ed].
+      rewrite Es, Ed.
+      pose proof (Nat.mod_upper_bound ((T + 1) / R) L ltac:(lia)) as Hlt.
+      unfold adj. destruct (f && Nat.odd (T / (R * L))); lia.
+    + intros i Hi. destruct i as [|i]; [lia|]. cbn [length] in Hi.
+      rewrite !idx_S. cbn [nth].
+      assert (Hi' : i < length rest) by lia.
+      apply (idx_turn rest Hrest i Hi' frest T).
+      pose proof (prodl_split rest i Hi') as Hsp. fold R in Hsp.
+      pose proof (axis_L rest Hrest i Hi'). pose proof (axis_R rest Hrest i).
+      pose proof (axis_H rest Hrest i).
+      apply (mod_factor _ (prodl (firstn i rest))); [nia|].
+      replace (prodl (firstn i rest) * (prodl (skipn (S i) rest) * nth i rest 0)) with R by lia.
+      assumption.
+  - (* axis 0 stays; the step happens inside rest *)
+    assert (Hrne : rest <> []).
+    { intros Hr. apply E0. unfold R. rewrite Hr. change (prodl []) with 1. apply Nat.mod_1_r. }
+    destruct (IH Hrne frest ltac:(lia) T E0) as [j [Hj [Hslow [Hadj Hfast]]]].
+    exists (S j). split; [cbn; lia|]. split; [|split].
+    + intros i Hi. destruct i as [|i].
+      * rewrite !idx0_unfold. fold R.
+        rewrite <- !(Nat.div_div _ R L) by lia.
+        rewrite (same_block T R) by (lia || assumption). reflexivity.
+      * rewrite !idx_S. apply Hslow. lia.
+    + rewrite !idx_S. assumption.
+    + intros i Hi. destruct i as [|i]; [lia|]. cbn [length] in Hi. rewrite !idx_S. cbn [nth].
+      apply Hfast. lia.
+Qed.
+
+Lemma slower_same_slower_same lens j k T T' : Forall pos lens -> j < k < length lens ->
+  slower lens k T = slower lens k T' -> slower lens j T = slower lens j T'.
+Proof.
+  intros Hpos Hjk Hs. unfold slower in *.
+  destruct (prodl_skipn_factor lens j k Hjk) as [c Hc].
+  pose proof (axis_L lens Hpos k ltac:(lia)) as HL. pose proof (axis_R lens Hpos k) as HR.
+  pose proof (axis_R lens Hpos j) as HRj. pose proof (axis_L lens Hpos j ltac:(lia)) as HLj.
+  set (M := prodl (skipn (S k) lens) * nth k lens 0) in *.
+  assert (HM : M <> 0) by (unfold M; nia).
+  assert (Hc0 : c <> 0) by (intros ->; lia).
+  rewrite Hc. replace (c * M * nth j lens 0) with (M * (c * nth j lens 0)) by lia.
+  rewrite <- !(Nat.div_div _ M (c * nth j lens 0)) by nia.
+  rewrite Hs. reflexivity.
+Qed.
+
+(* ================================================================== statements about the output *)
+
+Section Output.
+  Variables (lens : list nat) (flags : list bool) (pts : list (list nat)).
+  Hypothesis Hv : valid_lens lens.
+  Hypothesis Hlen : length flags = length lens.
+  Hypothesis Hrun : snake_cyclers lens flags = Some pts.
+
+  Lemma out_eq : pts = map (point lens flags) (seq 0 (prodl lens)).
+  Proof. rewrite (snake_closed lens flags Hv Hlen) in Hrun. injection Hrun as <-. reflexivity. Qed.
+
+  Lemma out_length : length pts = prodl lens.
+  Proof. rewrite out_eq, map_length, seq_length. reflexivity. Qed.
+
+  Lemma out_nth t : t < prodl lens -> nth t pts [] = point lens flags t.
+  Proof. intros Ht. rewrite out_eq. apply nth_map_seq. assumption. Qed.
+
+  Lemma out_coord t k : t < prodl lens -> k < length lens -> coord (nth t pts []) k = idx lens flags k t.
+  Proof. intros Ht Hk. unfold coord. rewrite out_nth by assumption. apply nth_point. assumption. Qed.
+
+  (* (i) *)
+  Lemma out_closed_form :
+    length pts = prodl lens /\
+    forall t, t < prodl lens ->
+      nth t pts [] = point lens flags t /\ length (nth t pts []) = length lens /\
+      forall k, k < length lens -> coord (nth t pts []) k = idx lens flags k t.
+  Proof.
+    split; [apply out_length|]. intros t Ht. split; [apply out_nth; assumption|]. split.
+    - rewrite out_nth by assumption. apply length_point.
+    - intros k Hk. apply out_coord; assumption.
+  Qed.
+
+  (* (ii) *)
+  Lemma out_permutation : NoDup pts /\ Permutation pts (product lens) /\
+    (forall p, In p pts <-> In p (product lens)).
+  Proof.
+    rewrite out_eq. split; [apply snake_points_nodup; assumption|].
+    pose proof (snake_permutation lens flags Hv Hlen) as HP. split; [assumption|].
+    intros p. split; intros Hp.
+    - apply (Permutation_in _ HP). assumption.
+    - apply (Permutation_in _ (Permutation_sym HP)). assumption.
+  Qed.
+
+  (* (iii) *)
+  Lemma out_unsnaked k : k < length lens -> (k = 0 \/ nth k flags false = false) ->
+    forall t, t < prodl lens ->
+      coord (nth t pts []) k = coord (nth t (product lens) []) k /\ coord (nth t pts []) k = digit lens k t.
+  Proof.
+    intros Hk Hf t Ht. destruct Hv as [Hne Hpos].
+    assert (E : coord (nth t pts []) k = digit lens k t).
+    { rewrite out_coord by assumption. destruct Hf as [->|Hf]; [apply idx_first; assumption|apply idx_unsnaked; assumption]. }
+    split; [|assumption]. rewrite E. unfold coord. rewrite nth_product by assumption.
+    symmetry. apply (nth_map_seq (fun k => digit lens k t)). assumption.
+  Qed.
+
+  (* (iv) turn-around: a slower coordinate changes => snaked axis k keeps its index, direction flips *)
+  Lemma out_turnaround j k t : j < k < length lens -> t + 1 < prodl lens ->
+    coord (nth (t + 1) pts []) j <> coord (nth t pts []) j ->
+    nth k flags false = true ->
+    coord (nth (t + 1) pts []) k = coord (nth t pts []) k /\
+    Nat.odd (slower lens k (t + 1)) = negb (Nat.odd (slower lens k t)).
+  Proof.
+    intros Hjk Ht Hch Hf. destruct Hv as [Hne Hpos].
+    rewrite !out_coord in Hch by lia. rewrite !out_coord by lia.
+    assert (Hs : slower lens k (t + 1) <> slower lens k t).
+    { intros Hs. apply Hch. unfold idx.
+      rewrite (slower_same_slower_same lens j k _ _ Hpos Hjk Hs).
+      rewrite (slower_same_digit_same lens j k _ _ Hpos Hjk Hs). reflexivity. }
+    pose proof (slower_changes lens Hpos k ltac:(lia) t Hs) as H0.
+    destruct (idx_turn lens Hpos k ltac:(lia) flags t H0) as [Hodd Hidx].
+    rewrite Hf in Hidx. split; assumption.
+  Qed.
+
+  (* (iv) shape of every step *)
+  Lemma out_step t : t + 1 < prodl lens ->
+    exists j, j < length lens /\
+      (forall i, i < j -> coord (nth (t + 1) pts []) i = coord (nth t pts []) i) /\
+      adj (coord (nth t pts []) j) (coord (nth (t + 1) pts []) j) /\
+      (forall i, j < i < length lens ->
+         if nth i flags false then coord (nth (t + 1) pts []) i = coord (nth t pts []) i
+         else coord (nth t pts []) i = nth i lens 0 - 1 /\ coord (nth (t + 1) pts []) i = 0) /\
+      ((forall i, j < i < length lens -> nth i flags false = true) ->
+         forall i, i < length lens -> i <> j -> coord (nth (t + 1) pts []) i = coord (nth t pts []) i).
+  Proof.
+    intros Ht. destruct Hv as [Hne Hpos].
+    assert (Hmod : (t + 1) mod prodl lens <> 0) by (rewrite Nat.mod_small by assumption; lia).
+    destruct (step_shape lens Hpos Hne flags Hlen t Hmod) as [j [Hj [Hslow [Hadj Hfast]]]].
+    exists j. split; [assumption|].
+    assert (Hslow' : forall i, i < j -> coord (nth (t + 1) pts []) i = coord (nth t pts []) i).
+    { intros i Hi. rewrite !out_coord by lia. apply Hslow. assumption. }
+    assert (Hfast' : forall i, j < i < length lens ->
+         if nth i flags false then coord (nth (t + 1) pts []) i = coord (nth t pts []) i
+         else coord (nth t pts []) i = nth i lens 0 - 1 /\ coord (nth (t + 1) pts []) i = 0).
+    { intros i Hi. rewrite !out_coord by lia. apply Hfast. assumption. }
+    split; [assumption|]. split; [rewrite !out_coord by lia; assumption|]. split; [assumption|].
+    intros Hall i Hi Hij. destruct (lt_dec i j) as [Hlt|Hge]; [apply Hslow'; assumption|].
+    assert (Hji : j < i < length lens) by lia.
+    specialize (Hfast' i Hji). rewrite (Hall i Hji) in Hfast'. assumption.
+  Qed.
+End Output.
+
+(* (v) *)
+Theorem first_flag_irrelevant lens flags b b' : valid_lens lens ->
+  snake_cyclers lens (b :: flags) = snake_cyclers lens (b' :: flags).
+Proof.
+  intros Hv. destruct (Nat.eq_dec (length lens) (S (length flags))) as [E|E].
+  - rewrite !snake_closed by (assumption || (cbn [length]; lia)). f_equal.
+    apply map_ext_in. intros t Ht. apply in_seq in Ht. unfold point. apply map_ext_in. intros k Hk.
+    destruct k as [|k].
+    + destruct Hv as [Hne Hpos]. rewrite !idx_first by (assumption || lia). reflexivity.
+    + reflexivity.
+  - unfold snake_cyclers. cbn [length]. apply Nat.eqb_neq in E. rewrite E. reflexivity.
+Qed.
+
+Theorem snake_total lens flags : valid_lens lens -> length flags = length lens ->
+  exists pts, snake_cyclers lens flags = Some pts.
+Proof. intros Hv Hlen. eexists. apply snake_closed; assumption. Qed.
